@@ -139,23 +139,27 @@ def r2(idx, rep):
     init = ci.methods["__init__"]
     upd = ci.methods["update"]
     rep.analysed(init, upd)
-    created = {}
-    for t, v, st in K.stores_in(init.node):
-        if isinstance(t, ast.Attribute) and isinstance(v, ast.Call) and isinstance(v.func, ast.Name) and v.func.id.endswith("Mode"):
-            created[t.attr] = v.func.id
+    # interpreted: the mode objects the controller creates (however __init__ walks them)
+    mode_classes = sorted(c for c in idx.classes if c.endswith("Mode") and c != "Mode" and idx.classes[c][0].file.startswith("csvpath/modes/"))
+    iti = Interp(idx, types={"self": "ModeController"}, unknown_calls="residual",
+                 handlers={c: (lambda i, cc, r, a, k, c=c: Obj("new:" + c)) for c in mode_classes})
+    psi = iti.run_all(init, args={"csvpath": Obj("cp")})
+    if len(psi) != 1 or psi[0].result[0] != "return":
+        raise AnalysisError(f"C15.R2: ModeController.__init__ is not a single normal path on the model ({[p.result for p in psi][:2]})")
+    created = {k[5:]: v.name[4:] for k, v in psi[0].final_store.items() if k.startswith("self.") and isinstance(v, Obj) and v.name.startswith("new:")}
     # interpreted: which of the mode objects does update() refresh (however it walks them)
     updated = []
-    itu = Interp(idx, types={"self": "ModeController"}, unknown_calls="residual", handlers={".update": lambda i, c, r, a, k: updated.append("self." + r.name)})
+    itu = Interp(idx, types={"self": "ModeController"}, unknown_calls="residual", handlers={".update": lambda i, c, r, a, k: updated.append("self." + getattr(r, "name", getattr(r, "text", "?")))})
     psu = itu.run_all(upd, store=dict({f"self.{a}": Obj(a) for a in created}, **K.instance_store(idx, "ModeController")) | {f"self.{a}": Obj(a) for a in created})
     if len(psu) != 1 or psu[0].result[0] != "return":
         raise AnalysisError(f"C15.R2: ModeController.update is not a single normal path on the model ({[p.result for p in psu][:2]})")
     for attr, cls in created.items():
         rep.check(f"self.{attr}" in updated, "R2", f"{ci.file}::ModeController.update updates {attr}", f"{cls} is created but never updated from the metadata: its setting would be ignored", K.where(upd, upd.node))
     rep.floor("R2", 8, "mode objects")
-    modes = ci.class_assigns.get("MODES")
-    listed = [unparse(e) for e in modes.elts] if isinstance(modes, (ast.List, ast.Tuple)) else []
+    okm, listed = Interp(idx, types={}).lookup("ModeController.MODES")
+    listed = list(listed) if okm and isinstance(listed, (list, tuple)) else []
     for cls in created.values():
-        rep.check(f"{cls}.MODE" in listed, "R2", f"{ci.file}::ModeController.MODES lists {cls}", f"{listed}", ci.file)
+        rep.check(MODE_KEYS.get(cls) in listed, "R2", f"{ci.file}::ModeController.MODES lists {cls}", f"{listed}", ci.file)
         k = idx.cls(cls).class_assigns.get("MODE")
         rep.check(isinstance(k, ast.Constant) and k.value == MODE_KEYS.get(cls), "R2", f"{idx.cls(cls).file}::{cls}.MODE key", f"{unparse(k) if k is not None else None} vs {MODE_KEYS.get(cls)!r}", idx.cls(cls).file)
     fg = ci.methods["get"]
